@@ -388,4 +388,5 @@ func TestC09(t *testing.T) {
 	forCases(n/150, 94, "c", func(i int, r *rng, id string) { c09Cut(r, id) })
 	forCases(1, 95, "p", func(i int, r *rng, id string) { c09Cap(id) })
 	forCases(n/10, 96, "f", func(i int, r *rng, id string) { c09Ppf(r, id) })
+	forCases(n/10, 97, "n", func(i int, r *rng, id string) { rrsLeg("C09", r, id) })
 }
